@@ -525,6 +525,21 @@ class ModuleNormaliser:
                 self.log.append(('if-stmt', fn.name, s.lineno))
                 body[i:i + 1] = [new]
                 continue
+            # for a, b in itertools.product(X, Y): ..   ->   for a in X: for b in Y: ..   (X, Y pure; no break)
+            if isinstance(s, ast.For) and not s.orelse and isinstance(s.iter, ast.Call) and \
+                    U(s.iter.func) in ('itertools.product', 'product') and not s.iter.keywords and len(s.iter.args) >= 2 and \
+                    isinstance(s.target, ast.Tuple) and len(s.target.elts) == len(s.iter.args) and \
+                    all(isinstance(t, ast.Name) for t in s.target.elts) and all(self.pure(a) for a in s.iter.args) and \
+                    not any(isinstance(a, ast.Starred) for a in s.iter.args) and \
+                    not any(isinstance(x, ast.Break) for b in s.body for x in ast.walk(b)) and not skip('product'):
+                inner = s.body
+                for t, a in reversed(list(zip(s.target.elts, s.iter.args))):
+                    lp = ast.For(target=t, iter=a, body=inner, orelse=[])
+                    ast.copy_location(lp, s)
+                    inner = [lp]
+                self.log.append(('product-loop', fn.name, s.lineno))
+                body[i:i + 1] = inner
+                continue
             # 4. unroll a loop over a literal tuple
             if not skip('unroll') and isinstance(s, ast.For) and not s.orelse and \
                     not any(isinstance(x, (ast.Break, ast.Continue)) for b in s.body for x in ast.walk(b)) and \
